@@ -252,6 +252,47 @@ def run(R):
     else:
         R.violation("C17.header", "print|first_line", "first_line handling: values written in print = %s, cleared on every row path = %s, "
                                                        "constructor sets true = %s" % (sorted(vals), good, ctor_true), [f.loc()])
+    # the JSON record goes out exactly as serde_json serialised it
+    R.rule("C17.verbatim", "the JSON line handed to the printer is the string serde_json::to_string produced, only formatted with `{}` / "
+                           "unwrapped / dereferenced on the way - nothing rewrites the serialised text")
+    PASS = re.compile(r"^core::hint::must_use$|^alloc::fmt::format$|^core::fmt::Arguments::new\w*$|^core::fmt::rt::Argument::new_display$|"
+                      r"^core::result::Result::(unwrap|expect|unwrap_or_default)$|Deref>::deref$|^alloc::string::String::as_str$|"
+                      r"AsRef<.*>>::as_ref$|Borrow<.*>>::borrow$|ToString>::to_string$|^alloc::fmt::format::format_inner$")
+    tss = [c for c in f.calls if short(c.name) == "serde_json::ser::to_string"]
+    if not tss:
+        R.note("C17.verbatim: no serde_json::to_string call in print (records are serialised differently); rule not instantiated")
+    for ts in tss:
+        sinks = []
+        for c in f.calls:
+            if not (re.search(PRINTLN, short(c.name)) or re.search(PRINTLN, short(c.decl))) or len(c.args) < 2:
+                continue
+            seen_, work, hit, foreign = set(), [c.args[1]], False, []
+            while work:
+                op_ = work.pop()
+                if op_.get("k") not in ("copy", "move"):
+                    continue
+                for o in F.origins(f, op_, depth=14, through_calls=False):
+                    if o.kind != "call" or id(o.call) in seen_:
+                        continue
+                    seen_.add(id(o.call))
+                    if o.call is ts:
+                        hit = True
+                    elif PASS.search(short(o.call.name)):
+                        work.extend(o.call.args)
+                    else:
+                        foreign.append(o.call)
+            if hit:
+                sinks.append((c, foreign))
+        if not sinks:
+            R.violation("C17.verbatim", "print|json-not-printed", "what serde_json::to_string returns does not reach the printer", [ts.loc()])
+        for c, foreign in sinks:
+            if foreign:
+                R.violation("C17.verbatim", "print|json-rewritten",
+                            "the serialised JSON record passes through %s before it is printed: the text serde_json produced (the only place "
+                            "where escaping is known to be right) is rewritten, so a value may no longer be recovered exactly"
+                            % short(foreign[0].name), [foreign[0].loc(), c.loc()])
+            else:
+                R.ok("C17.verbatim", "print|json", "println(format!(\"{}\", to_string(..).unwrap()))", c.loc())
     # pairing inside the closures
     n_pair = 0
     used_closures = []
